@@ -375,6 +375,35 @@ def main():
                 ob['unknown'] += 1
                 undecided.append((key, 'frame not established by the source: ' + res.get('detail', '')))
 
+    # specification lemmas written directly as SMT queries (they link the postconditions of the contracts to the
+    # property statement; they do not read the code): valid -> discharged, not valid -> the ARGUMENT is broken (fault)
+    for lem in getattr(mod, 'SMT_LEMMAS', []):
+        t_l = time.time()
+        try:
+            results = lem()
+        except Exception:
+            faults.append(f'specification lemma {lem.__name__} crashed: {traceback.format_exc()[-800:]}')
+            continue
+        for res in results:
+            key = f"spec-lemma/{lem.__name__}:{res['name']}"
+            total_queries += 1
+            ob = obligations.setdefault(key, {'queries': 0, 'unsat': 0, 'sat': 0, 'unknown': 0, 'ms': 0.0,
+                                              'kind': 'spec-lemma', 'function': '(specification)', 'backends': {}})
+            ob['queries'] += 1
+            ob['backends']['z3-5.1'] = ob['backends'].get('z3-5.1', 0) + 1
+            ob['ms'] += res.get('ms', 0.0)
+            b = backends.setdefault('z3-5.1', {'queries': 0, 'ms': 0.0})
+            b['queries'] += 1
+            b['ms'] += res.get('ms', 0.0)
+            if res['status'] == 'unsat':
+                ob['unsat'] += 1
+            elif res['status'] == 'unknown':
+                ob['unknown'] += 1
+                undecided.append((key, 'solver unknown on a specification lemma'))
+            else:
+                ob['sat'] += 1
+                faults.append(f'specification lemma {key} is not valid: the argument from the contracts to the property is broken')
+
     # vacuity: every clause must have been reached
     for rep in reports:
         if 'crash' in rep or rep['unsupported']:
